@@ -200,7 +200,7 @@ __CPROVER_requires(__CPROVER_w_ok($this, sizeof(*$this)))
 __CPROVER_requires(ENC_INV($this))
 __CPROVER_requires(g_exc == 0 && g_sink_len < (1UL << 60) && g_rot == 0 && !g_rot_with_pending && !g_sink_fail)
 __CPROVER_requires(g_L0 == ENC_LLEN($this) && g_b0 == ENC_LBYTE($this))
-__CPROVER_assigns($this->m_p, $this->m_avail, g_sink_len, g_wval, g_rot, g_rot_with_pending, g_sink_fail, g_exc)
+__CPROVER_assigns($this->m_p, $this->m_avail, g_sink_len, g_wval, g_rot, g_rot_with_pending, g_sink_fail, g_open_fail, g_exc)
 '''
 EROT_C = ROT_REQ + '''
 __CPROVER_ensures(g_exc == 0 || g_exc == EXC_CborOutputException)
@@ -224,6 +224,18 @@ for tag, mn, arg, decl in [('fd', '_ZN4CDNS11CdnsEncoder13rotate_outputIiEEvRKT_
                       post='  if (g_exc != 0) { CANARY("failure reachable"); }\n  if (g_sink_fail) { CANARY("rejected write reachable"); }',
                       note='every byte produced for the old output is handed to the sink before the sink is rotated; buffer empty afterwards; a rejected '
                            'write propagates, the sink is then not rotated and the buffered bytes are kept'))
+# C16, recovery clause: "after such an exception ... a subsequent rotate_output to a healthy destination succeeds". The failure of the old output has
+# been reported by an earlier call; whatever the old output does now (it may reject every write), rotation to an output that can be opened returns normally.
+EREC_C = ROT_REQ + '''
+__CPROVER_requires(!g_open_fail)
+__CPROVER_ensures(!g_open_fail ==> (g_exc == 0 && g_rot == 1))
+'''
+for tag, mn, arg, decl in [('fd', '_ZN4CDNS11CdnsEncoder13rotate_outputIiEEvRKT_', '&a_fd', 'int a_fd;')]:   # named outputs never report a rejected write (known finding of out.file.rotate_output.c16)
+    UNITS.append(Unit('enc.rotate_output.%s.recover' % tag, ('@' + mn, None), contract=EREC_C, prelude='byte_enc_rot.h', opaque={'boost::any': 'struct any'},
+                      setup=ROT_SETUP + '  g_open_fail = 0;\n  ' + decl + '\n', args=['&obj', arg], inline=[(ENC + 'flush_buffer', None)],
+                      stubs=SINK + ['BaseCborOutputWriter__rotate_output', 'any__from_\\w+'], props=['C16'],
+                      note='recovery: an output that rejects writes (its failure was reported by an earlier call) can be left by rotating to a healthy one '
+                           '(known finding: rotate_output first flushes the staging buffer to the old output and throws again, every time)'))
 UNITS.append(Unit('enc.dtor', ('@_ZN4CDNS11CdnsEncoderD1Ev', None), contract=EDTOR_C, prelude='byte_enc_rot.h', setup=ROT_SETUP, args=['&obj'],
                   inline=[(ENC + 'flush_buffer', None)], stubs=SINK, props=['C15', 'C13'],
                   note='destruction flushes the staging buffer (every produced byte reaches the sink unless the sink rejects it) and never throws'))
